@@ -6,6 +6,7 @@ import P2.Driver.MapSt
 import P2.Driver.Cmp
 import P2.Driver.Binning
 import P2.Driver.Lang
+import P2.Driver.LangOpt
 import P2.Driver.LibSpec
 import P2.Driver.Scope
 import P2.Driver.Heap
@@ -24,6 +25,7 @@ def handle (line : String) : String :=
   | "CMP" :: args => handleCmp args
   | "BIN" :: args => handleBin args
   | "EVAL" :: args => handleEval args
+  | "OPT" :: args => P2.Driver.LangOpt.handleOpt args
   | "SPEC" :: args => handleSpec args
   | "SCOPE" :: args => handleScope args
   | "HIST" :: args => P2.Driver.Heap.handleHist args
